@@ -39,7 +39,7 @@ ASSUMPTIONS = [
     "get-next at the end of the MIB view: NoSuchOID is demanded for the single get-next (statement: 'a single get or get-next of a missing object raises NoSuchOID'); for multi-get-next the positions before the first end-of-view OID are checked strictly, the tail may be absent",
     "clock frozen (C07 covers clock movement)",
 ]
-REQUIRED_MONITORS = ("ok_multiget", "ok_getnext", "ok_set", "ok_bulkget", "ok_sequences", "count_fault_refused", "nosuchoid_raised")
+REQUIRED_MONITORS = ("ok_multiget", "ok_getnext", "ok_set", "ok_bulkget", "ok_sequences", "count_fault_refused", "nosuchoid_raised", "max_datagram_ops")
 
 OPS = ("get", "multiget", "getnext", "multigetnext", "set", "multiset", "bulkget", "countfault", "bulkfault", "sequence")
 
@@ -139,6 +139,7 @@ def run_case(R, level, op, db, args, label="gen"):
     keys = sorted(db)
     via = tuple(args["via"]) if args.get("via") else None
     w = World(level, db, via=via)
+    run_case.last_world = w
     if via:
         R.mon["clients_switched_from_another_family"] += 1
     w.prime()
@@ -281,6 +282,13 @@ def run_case(R, level, op, db, args, label="gen"):
                 viol("bulkget returned %r" % (type(br),))
                 return
             n = len(scal)
+            # the agent can only be held to the request it was sent: the GETBULK must
+            # name exactly the caller's OIDs, in the caller's order (duplicates included),
+            # or no binding of the answer can be attributed to what the caller asked for
+            sent_oids = [tuple(o) for o, _ in req["varbinds"]]
+            if sent_oids != scal + reps:
+                viol("GETBULK names %r, the caller asked for scalars %r + repeaters %r: the answer cannot be attributed" % (sent_oids[:6], scal[:4], reps[:4]))
+                return
             # reference semantics of the non-repeaters
             exp_scal = []
             for o in scal:
@@ -489,11 +497,18 @@ def gen_args(rng, op, db, level):
             pairs.append((o, gen.gen_value(rng)))
         return {"pairs": pairs}
     if op == "bulkget":
-        return {
+        a = {
             "scalars": pick_oids(rng, db, rng.randint(0, 3)),
             "repeaters": pick_oids(rng, db, rng.randint(0, 3), allow_end=rng.random() < 0.3),
             "maxrep": rng.randint(0, 12),
         }
+        if a["scalars"] and rng.random() < 0.25:
+            # the same OID as non-repeater and as repeater / twice among the non-repeaters
+            if rng.random() < 0.5:
+                a["repeaters"].insert(rng.randint(0, len(a["repeaters"])), rng.choice(a["scalars"]))
+            else:
+                a["scalars"].append(a["scalars"][0])
+        return a
     if op == "sequence":
         present = sorted(db)
         v2 = gen.gen_value(rng)
@@ -545,7 +560,11 @@ def run(R):
         args = gen_args(rng, op, db, level)
         if rng.random() < 0.2:
             args["via"] = ("configure", rng.choice([lv for lv in ("v1", "v2c", "v3-noauth", "v3-md5") if lv != level]))
+            if rng.random() < 0.4 and level in ("v1", "v2c"):
+                args["via"] = ("configure", "v2c" if level == "v1" else "v1", "same")
         run_case(R, level, op, db, args)
+    if R.shard == 1 % R.nshards:
+        max_datagram(R)
     if R.shard == 0:
         db = {(1, 3, 6, 1, 2, 1, 1, 1, 0): ("str", b"x"), (1, 3, 6, 1, 2, 1, 1, 2, 0): ("int", 2)}
         last = (1, 3, 6, 1, 2, 1, 1, 2, 0)
@@ -559,6 +578,34 @@ def run(R):
             stats = {(1, 3, 6, 1, 6, 3, 15, 1, 1, x, 0): ("c32", x) for x in range(1, 7)}
             run_case(R, level, "multiget", {**db, **stats}, {"oids": sorted(stats)[:3]}, "corner-usmstats")
             run_case(R, level, "getnext", {**db, **stats}, {"oids": [(1, 3, 6, 1, 6, 3, 15, 1, 1, 3)]}, "corner-usmstats")
+
+
+def max_datagram(R):
+    """Answers that fill the largest UDP/IPv4 payload exactly (65507 octets) and the two
+    sizes below, for the operations that can carry them."""
+    a, b = (1, 3, 6, 1, 4, 1, 4242, 1, 1), (1, 3, 6, 1, 4, 1, 4242, 1, 2)
+    for level in rig.LEVELS:
+        ops = [("multiget", {"oids": [a, b]}), ("multigetnext", {"oids": [a[:-1], a]})]
+        if level != "v1":
+            ops.append(("bulkget", {"scalars": [], "repeaters": [a[:-1]], "maxrep": 2}))
+        for op, args in ops:
+            x, hit = 35000, set()
+            for _ in range(8):
+                db = {a: ("str", b"a" * 30000), b: ("str", b"b" * x)}
+                run_case(R, level, op, db, dict(args), "max-datagram")
+                w = run_case.last_world
+                if not w.seam.responses:
+                    break
+                size = len(w.seam.responses[-1])
+                hit.add(size)
+                want = next((t for t in (65507, 65506, 65505) if t not in hit), None)
+                if want is None:
+                    break
+                x += want - size
+            if {65505, 65506, 65507} <= hit:
+                R.mon["max_datagram_ops"] += 1
+            else:
+                R.mon["max_datagram_sizes_not_reached"] += 1
 
 
 def replay(R, v):
